@@ -2008,9 +2008,11 @@ def routed_record_rechecked(ctx: Ctx, rule: str):
         sweeps = [n for n in gr.nodes if n.kind in ("stmt", "iter") and n.ast is not None and any(
             isinstance(x, ast.Attribute) and x.attr == "_app_waiting_answer" for x in
             (ast.walk(n.ast.iter) if n.kind == "iter" else ast.walk(n.ast)))]
-        if not unreg or not sweeps:
-            raise AnalysisError("remove_peer_connection: unregistration or sweep of _app_waiting_answer not found")
-        late = [sw for sw in sweeps if not gr.dominated(sw, unreg)]
+        if not unreg:
+            ctx.fail(cons, rem.loc(), "remove_peer_connection never takes the connection out of "
+                     "`connections`", rule=rule)
+        # (a removal without any sweep of the table is reported by the pairing rule of C19-G1)
+        late = [sw for sw in sweeps if unreg and not gr.dominated(sw, unreg)]
         if late:
             ctx.fail(cons, gr.loc(late[0]), f"remove_peer_connection reads/sweeps _app_waiting_answer "
                      f"(`{late[0].text(60)}`) on a path on which the connection is still in "
